@@ -101,31 +101,11 @@ C04_RingsFromInputs(c) ==
 
 \* C01 (and C11 for chained calls): the result, read polygon by polygon, is the named
 \* combination of the base operands on both sides of every atom of their arrangement
-RegionOK(c) ==
-  LET ex == ExprOf(c)
-      bs == BaseNames(ex)
-      recs == [n \in bs |-> EdgeRecs(val[n])]
-      E == UNION {Segs(recs[n]) : n \in bs}
-      V == ArrVerts(E)
-  IN \A s \in AtomsOf(E, V) :
-        LET want == ExprPar(ex, recs, s)  got == PolyCount(c.mp, s)
-        IN (got[1] >= 1) = want[1] /\ (got[2] >= 1) = want[2]
+RegionOK(c) == RegionMatches(c.mp, ExprOf(c), [n \in BaseNames(ExprOf(c)) |-> EdgeRecs(val[n])])
 
 \* C02: the rings are grouped into a valid polygon set
 C02_PolygonSetValid(c) ==
-  Trivial(c) \/
-  LET ER == EdgeRecs(c.mp)
-      E == Segs(EdgesOfName(c.x)) \cup Segs(EdgesOfName(c.y)) \cup Segs(ER)
-      V == ArrVerts(E)
-      RA == UNION { { [a |-> at, id |-> x.id] : at \in ChainOf(x.e, V) } : x \in ER }
-  IN /\ Cardinality(RA) = Cardinality({y.a : y \in RA})        \* (a) nothing shared or traversed twice
-     /\ \A s \in AtomsOf(E, V) :                                \* (c),(d) disjoint parts; both readings agree
-           LET got == PolyCount(c.mp, s)  eo == Par(ER, s)
-           IN got[1] <= 1 /\ got[2] <= 1 /\ eo[1] = (got[1] = 1) /\ eo[2] = (got[2] = 1)
-     /\ \A i \in 1..Len(c.mp) : \A j \in 2..Len(c.mp[i]) :      \* (b) holes inside their exterior, outside the other holes
-           \A x \in RingRecs(c.mp[i][j], i, j) : \A s \in ChainOf(x.e, V) :
-              /\ Par(RingRecs(c.mp[i][1], i, 1), s) = <<TRUE, TRUE>>
-              /\ \A j2 \in (2..Len(c.mp[i])) \ {j} : Par(RingRecs(c.mp[i][j2], i, j2), s) = <<FALSE, FALSE>>
+  Trivial(c) \/ PolygonSetValid(c.mp, Segs(EdgesOfName(c.x)) \cup Segs(EdgesOfName(c.y)))
 
 \* C12 (first half): the operands are bit-for-bit what they were before the call
 C12_OperandsUntouched(c) == c.xd[1] = c.xd[2] /\ c.yd[1] = c.yd[2]
